@@ -57,7 +57,7 @@ def lemmas_for(eng, binder, t):
             PP.apply_shape(ex, binder, t, root, shape)
             buf = ex.new_region("wire", "4096")
             ws = spec.WireSpec(ex, binder)
-            for r in PP.bool_leaf_requirements(ws, binder, t, spec.Obj(root)):
+            for r in PP.bool_leaf_requirements(ws, binder, t, spec.Obj(root), shape):
                 ex.assume(r)
             mem2, nbits, err = ws.enc(t, spec.Obj(root), buf.mem, 0, shape)
             if err is not None:
